@@ -21,6 +21,18 @@ def _plaw(x, k, g):  # noqa: ANN001, ANN202
     return k * x**g
 
 
+def _scaled(k, c):  # noqa: ANN001, ANN202
+    return k * c
+
+
+def x0_of(spec: dict) -> list[float]:
+    """Initial state at the UNPERTURBED parameter values."""
+    x0 = [float(v) for v in spec["x0"]]
+    if spec.get("ia_x0"):
+        x0[0] = float(spec["k0"]) * float(spec["ia_x0"])
+    return x0
+
+
 def chain_model(spec: dict):  # noqa: ANN201
     """x1 -> x2 -> ... with constant influx k0 and power-law outflows v_i = k_i * x_i**g_i."""
     from mxlpy import Model
@@ -28,10 +40,18 @@ def chain_model(spec: dict):  # noqa: ANN201
     m = Model()
     n = len(spec["k"])
     m.add_parameter("k0", float(spec["k0"]))
+    if spec.get("ia_x0"):
+        m.add_parameter("ia_c", float(spec["ia_x0"]))
     for i in range(n):
         m.add_parameter(f"k{i + 1}", float(spec["k"][i]))
         m.add_parameter(f"g{i + 1}", float(spec["g"][i]))
-        m.add_variable(f"x{i + 1}", float(spec["x0"][i]))
+        if i == 0 and spec.get("ia_x0"):
+            from mxlpy import InitialAssignment
+
+            # the first initial value is COMPUTED from a parameter (x1(0) = ia_x0 * k0)
+            m.add_variable("x1", InitialAssignment(fn=_scaled, args=["k0", "ia_c"]))
+        else:
+            m.add_variable(f"x{i + 1}", float(spec["x0"][i]))
     m.add_reaction("v0", _influx, args=["k0"], stoichiometry={"x1": 1})
     for i in range(n):
         st = {f"x{i + 1}": -1}
@@ -71,7 +91,7 @@ class Exec:
     def integ(self):  # noqa: ANN201
         c = self.case
         if c.get("poison"):
-            return integrators.FaultyFactory(c["integrator"], tuple(c["poison"]))
+            return integrators.FaultyFactory(c["integrator"], tuple(c["poison"]), c.get("poison_mode", "fail"))
         return integrators.inner_type(c["integrator"])
 
     def untouched(self, m, before: dict, routine: str, mode: str, extra: str) -> bool:  # noqa: ANN001
@@ -98,7 +118,7 @@ class Exec:
             m = chain_model(spec)
             before = model_state(m)
             state = {f"x{j + 1}": float(op["state"][j]) for j in range(n)} if op.get("state") else None
-            xs = [float(op["state"][j]) for j in range(n)] if op.get("state") else [float(v) for v in spec["x0"]]
+            xs = [float(op["state"][j]) for j in range(n)] if op.get("state") else x0_of(spec)
             try:
                 if kind == "variable_elasticities":
                     tab = mca.variable_elasticities(m, variables=state, normalized=normalized, to_scan=op.get("to_scan"))
@@ -123,12 +143,56 @@ class Exec:
                         want = 0.0
                         if col == f"k{j}":
                             want = 1.0 if normalized else v[j] / k[j]
+                        elif col == "ia_c":
+                            want = 0.0  # the state is held fixed: no flux depends on ia_c directly
                         elif col.startswith("g") and j == int(col[1:]) and j >= 1:
                             # d v_j / d g_j = v_j ln x_j
                             want = g[j - 1] * np.log(xs[j - 1]) if normalized else v[j] * np.log(xs[j - 1])
                     if not (abs(got - want) <= 1e-6 * (1 + abs(want))):
                         self._viol("wrong_elasticity", ["wrong_elasticity", kind, "normalized" if normalized else "unscaled"], f"{kind}[{'v%d' % j}, {col}] = {got}, analytic {want}")
                         return
+            self.counters[f"tables_checked:{kind}"] += 1
+            return
+        if kind in ("mc_variable_elasticities", "mc_parameter_elasticities"):
+            import pandas as pd
+
+            m = chain_model(spec)
+            before = model_state(m)
+            k0s = [float(v) for v in op["mc_k0"]]
+            tab = pd.DataFrame({"k0": k0s})
+            state = {f"x{j + 1}": float(op["state"][j]) for j in range(n)}
+            sched = op["schedules"][0]
+            simpool.install(simpool.PoolPlan(workers=sched["W"], seed=sched["seed"]))
+            try:
+                if kind == "mc_variable_elasticities":
+                    res = mc.variable_elasticities(m, mc_to_scan=tab, variables=state, normalized=normalized, max_workers=sched["W"])
+                else:
+                    res = mc.parameter_elasticities(m, mc_to_scan=tab, to_scan=[f"k{j}" for j in range(n + 1)], variables=state, normalized=normalized, max_workers=sched["W"])
+            except Exception as e:  # noqa: BLE001
+                self._viol("routine_raised", ["routine_raised", kind, type(e).__name__], f"{kind} raised {type(e).__name__}: {str(e)[:100]}")
+                return
+            finally:
+                simpool.uninstall()
+            self.trace.add(kind, sched, digest_of(canon(res)))
+            self.counters["schedule:pool"] += 1
+            if not self.untouched(m, before, kind, "mode:pool", "state_given"):
+                return
+            xs = [float(op["state"][j]) for j in range(n)]
+            for ri, k0 in enumerate(k0s):
+                sub = res.xs(ri, level=0)
+                v = [k0] + [k[j + 1] * xs[j] ** g[j] for j in range(n)]
+                kk = [k0, *k[1:]]
+                for col in sub.columns:
+                    for j in range(n + 1):
+                        got = float(sub.loc[f"v{j}", col])
+                        if kind == "mc_variable_elasticities":
+                            xi = int(col[1:]) - 1
+                            want = (g[xi] if normalized else g[xi] * v[j] / xs[xi]) if j == xi + 1 else 0.0
+                        else:
+                            want = (1.0 if normalized else v[j] / kk[j]) if col == f"k{j}" else 0.0
+                        if not (abs(got - want) <= 1e-6 * (1 + abs(want))):
+                            self._viol("wrong_elasticity", ["wrong_elasticity", kind, "normalized" if normalized else "unscaled"], f"{kind} row {ri} [{'v%d' % j}, {col}] = {got}, analytic {want}")
+                            return
             self.counters[f"tables_checked:{kind}"] += 1
             return
         if kind in ("response_coefficients", "mc_response_coefficients"):
@@ -152,6 +216,18 @@ class Exec:
                         tab = pd.DataFrame({"k0": [float(v) for v in op["mc_k0"]]})
                         rc = mc.response_coefficients(m, mc_to_scan=tab, to_scan=to_scan, variables=variables, normalized=normalized, max_workers=sched.get("W"), integrator=self.integ(), disable_tqdm=True)
                     cv, cf = rc.variables, rc.fluxes
+                except integrators.SimulatedSolverCrash:
+                    # the injected solver crash propagates (legitimately); the caller's model
+                    # must still be as the routine found it
+                    self.counters["fault_fired:solver_crash"] += 1
+                    self.trace.add(kind, sched, "solver_crash")
+                    if par:
+                        simpool.uninstall()
+                        par = False
+                    self.untouched(m, before, kind, mode, "after_solver_crash")
+                    if self.stop():
+                        return
+                    continue
                 except Exception as e:  # noqa: BLE001
                     self._viol("routine_raised", ["routine_raised", kind, mode, type(e).__name__], f"{kind} ({mode}) raised {type(e).__name__}: {str(e)[:100]}")
                     return
@@ -218,9 +294,13 @@ def gen_case(rng: SimRng, tier: str) -> dict:  # noqa: ARG001
     }
     ops = []
     for _ in range(r.randint(1, 3)):
-        kind = rng.weighted("case", [("variable_elasticities", 1), ("parameter_elasticities", 1.5), ("response_coefficients", 3), ("mc_response_coefficients", 1)])
+        kind = rng.weighted("case", [("variable_elasticities", 1), ("parameter_elasticities", 1.5), ("response_coefficients", 3), ("mc_response_coefficients", 1), ("mc_variable_elasticities", 0.5), ("mc_parameter_elasticities", 0.5)])
         op: dict = {"op": kind, "normalized": r.random() < 0.6}
-        if kind in ("variable_elasticities", "parameter_elasticities"):
+        if kind in ("mc_variable_elasticities", "mc_parameter_elasticities"):
+            op["state"] = [r.choice([0.5, 1.5, 2.0, 4.0]) for _ in range(n)]
+            op["mc_k0"] = [r.choice([0.5, 1.0, 2.0, 3.0]) for _ in range(r.randint(1, 3))]
+            op["schedules"] = [{"mode": "pool", "W": r.choice([1, 2, 4, 16]), "seed": r.randrange(10**6)}]
+        elif kind in ("variable_elasticities", "parameter_elasticities"):
             if r.random() < 0.6:
                 op["state"] = [r.choice([0.5, 1.5, 2.0, 4.0]) for _ in range(n)]
             if kind == "parameter_elasticities" and r.random() < 0.5:
@@ -241,11 +321,14 @@ def gen_case(rng: SimRng, tier: str) -> dict:  # noqa: ARG001
                 op["mc_k0"] = [r.choice([0.5, 1.0, 2.0, 3.0]) for _ in range(r.randint(1, 3))]
         ops.append(op)
     case = {"spec": spec, "integrator": integ, "ops": ops, "poison": []}
-    if r.random() < 0.15:
+    if r.random() < 0.3:
+        spec["ia_x0"] = r.choice([0.5, 2.0, 3.0])
+    if r.random() < 0.25:
         # the steady state at one perturbed parameter value fails (content-keyed)
         j = r.randrange(n + 1)
         kk = spec["k0"] if j == 0 else spec["k"][j - 1]
-        case["poison"] = [kk * (1 + 1e-4)]
+        case["poison"] = [kk * (1 + 1e-4)] if r.random() < 0.5 else [kk * (1 - 1e-4)]
+        case["poison_mode"] = r.choice(["fail", "raise"])
     return case
 
 
